@@ -125,6 +125,10 @@ class Ctx:
         prefix = os.path.join(self.work, name)
         cmd = [PY, "-m", "vh.drivers." + driver, "--out", prefix, "--tier", self.tier,
                "--seed", str(self.seed), "--shards", str(nshards)] + list(extra)
+        if os.environ.get("VERIF_COVERAGE"):
+            # diagnostic only (tools/coverage.sh): which lines of felupe do the drivers execute
+            cmd = [PY, "-m", "coverage", "run", "--parallel-mode", "--data-file", os.path.join(os.environ["VERIF_COVERAGE"], ".coverage"),
+                   "--source", "felupe"] + cmd[1:]
         if self.only is not None:
             of = os.path.join(self.work, "only.json")
             with open(of, "w") as f:
